@@ -130,7 +130,7 @@ def bits(n, L):
 def sizes(tier):
     if tier == "thorough":
         return dict(cfgs=160, v6cfgs=24, ops=90, v6ops=30, big=120000)
-    return dict(cfgs=36, v6cfgs=6, ops=50, v6ops=16, big=24000)
+    return dict(cfgs=36, v6cfgs=6, ops=50, v6ops=16, big=48000)
 
 
 # --------------------------------------------------------------------------- core-level scopes
@@ -152,6 +152,9 @@ def core_scope(res, pid, rng, tier):
         L = cfg.L
         nops = sz["v6ops"] if fam == 6 else sz["ops"]
         addrs = ipgen.gen_addrs(rng, cfg, nops)
+        if cfg.hmode == "md5" and ci % 2 == 0:
+            sp = ipgen.special_preimages(cfg)
+            addrs = sp[: max(4, nops // 4)] + [a ^ 1 for a in sp[:4]] + addrs
         res.count("cfg_family_%d" % fam)
         res.count("cfg_B_%s" % cfg.B)
         res.count("cfg_hash_%s" % (cfg.hmode if cfg.hmode == "md5" else "fn"))
@@ -414,9 +417,14 @@ def gen_file_lines(rng, fc, n4, n6):
         m = rng.choice(ms)
         a4.append(m)
         a4.append(m ^ (1 << rng.randint(0, 31)))
+    sp4 = ipgen.special_preimages(c4)
+    a4 += sp4 + [a ^ 1 for a in sp4[:6]]
     for a in a4:
         t = rng.choice(V4_TEMPLATES)
         items.append((4, a, v4_text(rng, a), t))
+    for a in ipgen.special_preimages(c6):
+        items.append((6, a, v6_text(rng, a), rng.choice(V6_TEMPLATES)))
+        items.append((6, a ^ 1, v6_text(rng, a ^ 1), rng.choice(V6_TEMPLATES)))
     for a in ipgen.gen_addrs(rng, c6, n6):
         if rng.random() < 0.3:
             a &= (1 << rng.choice([16, 32, 48, 64])) - 1     # small values, e.g. ::5, ::1:2
@@ -581,7 +589,7 @@ def run_cli(argv, files, want_dump=False, stale_dump=None):
         for name, body in files.items():
             p = os.path.join(ind, name)
             os.makedirs(os.path.dirname(p), exist_ok=True)
-            with open(p, "w", newline="") as f:
+            with open(p, "w", newline="", encoding="utf-8", errors="surrogateescape") as f:
                 f.write(body)
         args = ["-i", ind, "-o", outd] + list(argv)
         dump = os.path.join(d, "dump.txt")
@@ -628,7 +636,8 @@ def cli_scope(res, pid, rng, tier):
             fc.prefixes, fc.nets = None, list(ipgen.SPEC_RFC1918)
         elif shape == 2:    # --preserve-addresses (custom), default prefixes
             fc.prefixes = None
-            fc.nets = [ipgen.rand_cidr(rng)] if rng.random() < 0.5 else ipgen.same_addr_subnets(rng, None)
+            # an explicit entry inside a private block, together with --preserve-private-addresses (first pass); else random
+            fc.nets = ["10.1.0.0/16", "192.168.44.201/32"] if r < 4 else ([ipgen.rand_cidr(rng)] if rng.random() < 0.5 else ipgen.same_addr_subnets(rng, None))
         else:               # custom prefixes, maybe networks
             if not fc.prefixes:
                 fc.prefixes = ipgen.nested_cidrs(rng)
@@ -648,7 +657,7 @@ def cli_scope(res, pid, rng, tier):
                 private = True
             else:
                 argv += ["--preserve-addresses", ",".join(fc.nets)]
-                if rng.random() < 0.4:
+                if rng.random() < 0.4 or fc.nets[0] == "10.1.0.0/16":
                     argv += ["--preserve-private-addresses"]
                     fc.nets = fc.nets + list(ipgen.SPEC_RFC1918)
                     private = True
@@ -657,8 +666,11 @@ def cli_scope(res, pid, rng, tier):
             for a in (0x0A141E29, 0xAC100901, 0xC0A80164):   # non-mask private addresses
                 items.append((4, a, str(ipaddress.IPv4Address(a)), "ip address {a}"))
         text = "".join(t.format(a=txt) + "\n" for _, _, txt, t in items)
-        status, outs, dumptext = run_cli(argv, {"r1.cfg": text}, want_dump=(pid == "C17"), stale_dump=stale)
-        if pid == "C17" and dumptext:
+        files_in = {"r1.cfg": text}
+        if pid == "C17" and r % 2 == 1:
+            files_in["blob.bin"] = "\udcff\udcfe binary"       # written as undecodable bytes: this file fails, the map must still be complete
+        status, outs, dumptext = run_cli(argv, files_in, want_dump=(pid in ("C17", "C03")), stale_dump=stale)
+        if pid in ("C17", "C03") and dumptext:
             stale = dumptext                # the next run finds this run's map at the same path
         res.evaluations += 1
         meta = {"argv": argv, "cfg": fc.describe()}
@@ -789,6 +801,75 @@ def mask_scope(res, pid, rng, tier):
     return dis + d, fails
 
 
+def text_history_scope(res, pid, rng, tier):
+    """one anonymizer object driven through `anonymize_ip_addr` in both directions (undo / anonymize interleaved on the
+    same address texts); every answer compared with the cache-free spec and with a fresh object"""
+    from netconan.ip_anonymization import anonymize_ip_addr
+    fails, dis = [], []
+    for r in range(6 if tier == "quick" else 20):
+        fam = 6 if r % 3 == 2 else 4
+        cfg = ipgen.gen_cfg(rng, fam=fam)
+        cfg.hmode = "md5"
+        try:
+            obj = cfg.build()
+        except Exception as e:  # noqa
+            continue
+        L = cfg.L
+        base = ipgen.gen_addrs(rng, cfg, 10)
+        base = [a for a in base if not (fam == 4 and a in SPEC_MASKS)]
+        pool = base + [a ^ 1 for a in base[:5]]
+        nets = [ipaddress.ip_network(n) for n in (cfg.nets or [])] if fam == 4 else []
+        ops = []
+        for _ in range(40):
+            a = rng.choice(pool)
+            ops.append((rng.random() < 0.45, a))
+        f_img = dict(zip(pool, spec_images(cfg, pool)))
+        g_img = dict(zip(pool, spec_images(cfg, pool, inv=True)))
+        fwd = {}
+        for undo, a in ops:
+            txt = str(ipaddress.ip_address(a)) if fam == 4 else str(ipaddress.IPv6Address(a))
+            line = "neighbor %s up" % txt
+            try:
+                out = anonymize_ip_addr(obj, line, undo)
+            except Exception as e:  # noqa
+                fails.append({"kind": "anonymize_ip_addr raised", "cfg": cfg.describe(), "line": line, "undo": undo, "exc": repr(e)})
+                continue
+            tok = out.split(" ")[1] if len(out.split(" ")) == 3 else None
+            keep = fam == 4 and (a in SPEC_MASKS or any(ipaddress.IPv4Address(a) in n for n in nets))
+            want = txt if keep else str(ipaddress.ip_address((g_img if undo else f_img)[a])) if fam == 4 else str(ipaddress.IPv6Address((g_img if undo else f_img)[a]))
+            res.evaluations += 1
+            res.nt(("texthist", fam, undo, a & 0xFFFF))
+            if tok != want:
+                try:
+                    fresh = anonymize_ip_addr(cfg.build(), line, undo)
+                except Exception:  # noqa
+                    fresh = None
+                rec = {"cfg": cfg.describe(), "line": line, "undo": undo, "output": out, "expected_token": want,
+                       "history": [("undo" if u else "anonymize", str(ipaddress.ip_address(x))) for u, x in ops[:ops.index((undo, a)) + 1]][-8:]}
+                if fresh is not None and fresh != out:
+                    rec["kind"] = "the answer of a long-lived anonymizer differs from a fresh one's (depends on the earlier requests)"
+                    rec["fresh_output"] = fresh
+                    fails.append(rec)
+                else:
+                    dis.append({"op": "anonymize_ip_addr(undo=%s) %s" % (undo, line), "impl": out, "model": want, "meta": rec})
+            if not undo and tok is not None and not keep:
+                try:
+                    fwd[a] = int(ipaddress.ip_address(tok))
+                except ValueError:
+                    pass
+        if pid == "C01":
+            ks = list(fwd)
+            for i in range(len(ks)):
+                for j in range(i + 1, len(ks)):
+                    k0, k1 = cpl(bits(ks[i], L), bits(ks[j], L)), cpl(bits(fwd[ks[i]], L), bits(fwd[ks[j]], L))
+                    if k0 != k1 and not (fam == 4 and (fwd[ks[i]] in SPEC_MASKS or fwd[ks[j]] in SPEC_MASKS)):
+                        fails.append({"kind": "common-prefix length changed (text level, one object used in both directions)", "cfg": cfg.describe(),
+                                      "a": str(ipaddress.ip_address(ks[i])), "b": str(ipaddress.ip_address(ks[j])),
+                                      "image_a": str(ipaddress.ip_address(fwd[ks[i]])), "image_b": str(ipaddress.ip_address(fwd[ks[j]])),
+                                      "cpl_in": k0, "cpl_out": k1})
+    return dis, fails
+
+
 FRESH_SNIPPET = r"""
 import json, sys
 sys.path.insert(0, %r)
@@ -842,6 +923,24 @@ def process_history_scope(res, pid, rng, tier):
         base = {"fam": c.fam, "salt": c.salt, "prefixes": c.prefixes, "nets": c.nets, "B": c.B}
         reqs.append(dict(base, undo=False, vals=addrs))
         reqs.append(dict(base, undo=True, vals=ys))
+    # text level: an earlier anonymizer had preserved networks; a later one without them must not treat them as preserved
+    from netconan.ip_anonymization import anonymize_ip_addr
+    if pid in ("C01", "C03", "C05"):
+        for net in ("100.64.0.0/10", "44.0.0.0/8"):
+            ipgen.Cfg(4, "leak", 8, None, [net], "md5").build()
+            later = ipgen.Cfg(4, "leak", 8, None, None, "md5")
+            obj = later.build()
+            n = ipaddress.ip_network(net)
+            inside = [int(n.network_address) + rng.randint(1, 60000) for _ in range(4)]
+            imgs = spec_images(later, inside)
+            for a, y in zip(inside, imgs):
+                line = "ip address %s" % ipaddress.IPv4Address(a)
+                out = anonymize_ip_addr(obj, line)
+                res.evaluations += 1
+                if out != "ip address %s" % ipaddress.IPv4Address(y) and a not in SPEC_MASKS:
+                    fails.append({"kind": "an anonymizer behaves differently after another anonymizer with preserved networks was constructed in the process",
+                                  "earlier_preserve_addresses": [net], "cfg": later.describe(), "line": line, "output": out,
+                                  "expected": "ip address %s" % ipaddress.IPv4Address(y)})
     got, err = fresh_process(reqs)
     if got is None:
         dis.append({"op": "fresh interpreter process", "impl": "failed: " + str(err), "model": "ok", "meta": None})
@@ -860,6 +959,55 @@ def process_history_scope(res, pid, rng, tier):
     return dis, fails
 
 
+def dir_history_scope(res, pid, rng, tier):
+    """directory runs: no salt given (one generated salt must serve the whole run), a file that fails in the middle;
+    identical files before and after it must receive identical mappings; a dump file left by an earlier run with
+    another salt must not influence this run"""
+    from netconan.anonymize_files import anonymize_files
+    fails = []
+    body = "".join("ip address %s 255.255.255.0\n neighbor %s remote-as 65001\n" % (
+        ipaddress.IPv4Address(rng.getrandbits(32)), ipaddress.IPv6Address(rng.getrandbits(128))) for _ in range(12))
+    for salt in (None, "dirsalt"):
+        d = tempfile.mkdtemp(prefix="ncverif_")
+        try:
+            ind, outd = os.path.join(d, "in"), os.path.join(d, "out")
+            for rel, data in (("a.cfg", body.encode()), ("m/bad.bin", b"\xff\xfe\x00 not text \xc3\x28"), ("m/z/c.cfg", body.encode()),
+                              ("zz.cfg", body.encode())):
+                p = os.path.join(ind, rel)
+                os.makedirs(os.path.dirname(p), exist_ok=True)
+                open(p, "wb").write(data)
+            dump = os.path.join(d, "map.txt")
+            if salt is not None:
+                # a map left behind by an earlier run with another salt
+                open(dump, "w").write("".join("%s\t%s\n" % (ln.split()[2], "9.9.9.%d" % (i % 250)) for i, ln in enumerate(body.splitlines()) if ln.startswith("ip address")))
+            from . import fa as _fa
+            with _fa.LogCap():
+                anonymize_files(ind, outd, False, True, salt=salt, dumpfile=dump if salt is not None else None)
+            outs = {}
+            for r_, _, fs in os.walk(outd):
+                for f in fs:
+                    outs[os.path.relpath(os.path.join(r_, f), outd)] = open(os.path.join(r_, f)).read()
+            res.evaluations += 3
+            res.nt(("dirhist", salt))
+            good = [k for k in ("a.cfg", os.path.join("m", "z", "c.cfg"), "zz.cfg") if k in outs]
+            if len(good) < 3:
+                fails.append({"kind": "a healthy file was not written", "salt": salt, "written": sorted(outs)})
+            elif len(set(outs[k] for k in good)) != 1:
+                fails.append({"kind": "identical files of one run received different address mappings (a file failed in between)",
+                              "salt": salt, "first_lines": {k: outs[k].split("\n")[0] for k in good}})
+            elif salt is not None:
+                cfg4 = ipgen.Cfg(4, salt, None, None, None, "md5")
+                a0 = int(ipaddress.IPv4Address(body.split()[2]))
+                want = spec_images(cfg4, [a0])[0]
+                got = outs["a.cfg"].split()[2]
+                if a0 not in SPEC_MASKS and got != str(ipaddress.IPv4Address(want)):
+                    fails.append({"kind": "a map file left by an earlier run (other salt) changed this run's mapping", "salt": salt,
+                                  "address": body.split()[2], "output": got, "expected": str(ipaddress.IPv4Address(want))})
+        finally:
+            shutil.rmtree(d, ignore_errors=True)
+    return [], fails
+
+
 def big_history(res, pid, rng, tier):
     """A long run on one anonymizer (tens of thousands of addresses): every answer and the dump compared with
     the cache-free spec.  (The list-based model machine is too slow here; the spec is proved equal to it.)"""
@@ -868,11 +1016,15 @@ def big_history(res, pid, rng, tier):
     for fam, cnt in ((4, n), (6, max(300, n // 12))):
         L = 32 if fam == 4 else 128
         nets = None
-        if fam == 4 and pid in ("C01", "C04", "C05") and rng.random() < 0.5:
+        if fam == 4 and pid == "C05":
+            nets = ["10.0.0.0/16", "48.0.0.0/5"]
+        elif fam == 4 and pid in ("C01", "C04") and rng.random() < 0.5:
             nets = ["10.0.0.0/16"]
         cfg = ipgen.Cfg(fam, "big" + str(rng.randint(0, 9)), rng.choice([0, 8]), None, nets, "md5")
         obj = cfg.build()
-        addrs = list(dict.fromkeys(ipgen.gen_addrs(rng, cfg, cnt)))
+        # half near the configured boundaries, half uniform (every uniform address adds ~L new memo nodes)
+        addrs = list(dict.fromkeys(ipgen.gen_addrs(rng, cfg, cnt // 2) + [rng.getrandbits(L) for _ in range(cnt // 2)]))
+        rng.shuffle(addrs)
         probes = addrs[:40]
         # neighbours of the probes are asked again at the very end of the history
         tail = [a ^ (1 << rng.randint(0, L - 1)) for a in probes for _ in range(3)]
@@ -911,6 +1063,16 @@ def big_history(res, pid, rng, tier):
                     if bits(a, L).startswith(p) != bits(y, L).startswith(p):
                         fails.append({"kind": "preserved prefix not respected within a long history", "cfg": d, "a": a,
                                       "image": y, "prefix_bits": p, "history_length": len(addrs)})
+                        break
+                if fails:
+                    break
+        if pid == "C05" and fam == 4:
+            for a, y in zip(addrs, ys):
+                for n in [ipaddress.ip_network(x) for x in (cfg.nets or [])]:
+                    if (ipaddress.IPv4Address(a) in n) != (ipaddress.IPv4Address(y) in n):
+                        fails.append({"kind": "address mapped across the boundary of a preserved network within a long history", "cfg": d,
+                                      "a": str(ipaddress.IPv4Address(a)), "image": str(ipaddress.IPv4Address(y)), "network": str(n),
+                                      "history_length": len(addrs)})
                         break
                 if fails:
                     break
